@@ -223,6 +223,7 @@ impl<'a> Emitter<'a> {
                 self.colls.push((name.clone(), elems.join(", ")));
                 format!("for {} in &{} {{ {} }}", self.names.name(*x, self.nq), name, self.goals(body))
             }
+            Goal::ForIn(x, coll, body) => format!("for {} in &{} {{ {} }}", self.names.name(*x, self.nq), self.tree_term(coll), self.goals(body)),
             Goal::Match(k, t, arms) => {
                 let name = match k {
                     MatchKind::Match => "match",
